@@ -27,9 +27,10 @@ const (
 	badSig
 	badBody
 	prevVariant
+	altBody
 )
 
-var kindName = []string{"Genuine", "BadSig", "BadBody", "PrevVariant"}
+var kindName = []string{"Genuine", "BadSig", "BadBody", "PrevVariant", "AltBody"}
 
 type dblock struct {
 	seq  int
@@ -40,8 +41,9 @@ type env struct {
 	w       *vk.World
 	dir     string
 	pub     *vk.Node
-	chain   []coin.SignedBlock // chain[k] = publisher block k (0 = genesis)
-	other   cipher.SecKey      // a key that is not the publisher's
+	chain   []coin.SignedBlock        // chain[k] = publisher block k (0 = genesis)
+	alt     map[int]coin.Transactions // alt[k]: another transaction set valid at height k-1 (not the publisher's block k)
+	other   cipher.SecKey             // a key that is not the publisher's
 	f1      bool
 	nfollow int
 	rng     *Rng
@@ -71,6 +73,17 @@ func (e *env) material(b dblock) coin.SignedBlock {
 			o = e.chain[0]
 		}
 		sb.Block.Body = o.Block.Body
+		return sb
+	case altBody:
+		// genuine header and signature, a different body whose transactions are all
+		// valid against the unspent set at that height; only the body-hash comparison
+		// tells it from the publisher's block
+		sb := g
+		if a, ok := e.alt[b.seq]; ok {
+			sb.Block.Body = coin.BlockBody{Transactions: a}
+		} else {
+			sb.Block.Body = e.chain[0].Block.Body
+		}
 		return sb
 	default: // publisher-signed header with another PrevHash (F1)
 		blk := g.Block
@@ -328,7 +341,7 @@ func run(args []string) error {
 		return err
 	}
 	defer pub.Remove()
-	e := &env{w: w, dir: dir, pub: pub, rng: r}
+	e := &env{w: w, dir: dir, pub: pub, rng: r, alt: map[int]coin.Transactions{}}
 	_, e.other = cipher.MustGenerateDeterministicKeyPair([]byte("not the publisher"))
 	g, err := pub.V.GetSignedBlockBySeq(0)
 	if err != nil {
@@ -355,6 +368,23 @@ func run(args []string) error {
 		}
 		if len(txns) == 0 {
 			return fmt.Errorf("generator could not build a transaction for block %d", k)
+		}
+		// an alternative transaction valid at this height that is not in the publisher's block
+		for try := 0; try < 4; try++ {
+			a, _, ok, err := pub.RandomSpend(r, nil)
+			if err != nil {
+				return err
+			}
+			same := !ok
+			for _, t := range txns {
+				if ok && t.Hash() == a.Hash() {
+					same = true
+				}
+			}
+			if !same {
+				e.alt[k] = coin.Transactions{a}
+				break
+			}
 		}
 		head, _ := pub.Head()
 		sb, err := pub.MakeBlock(txns, head.Time()+uint64(10+r.Intn(5000)))
@@ -419,6 +449,30 @@ func run(args []string) error {
 			}
 		}
 	}
+	// targeted: every forged kind of block k delivered exactly when the node is ready for
+	// block k (alone, or followed in the same message by the genuine k), then the genuine k, k+1
+	for k := 1; k <= nex; k++ {
+		for fk := 1; fk <= 4; fk++ {
+			for variant := 0; variant < 2; variant++ {
+				var sched [][]dblock
+				var pre []dblock
+				for j := 1; j < k; j++ {
+					pre = append(pre, dblock{j, genuine})
+				}
+				if len(pre) > 0 {
+					sched = append(sched, pre)
+				}
+				if variant == 0 {
+					sched = append(sched, []dblock{{k, kind(fk)}}, []dblock{{k, genuine}, {k + 1, genuine}})
+				} else {
+					sched = append(sched, []dblock{{k, kind(fk)}, {k, genuine}, {k + 1, genuine}}, []dblock{{k, genuine}, {k + 1, genuine}})
+				}
+				if err := add(sched, fk%2 == 0, "targeted"); err != nil {
+					return err
+				}
+			}
+		}
+	}
 	// random: longer chain, duplicates, drops, forged / mutated / re-signed blocks
 	nrand := f.Budget(150, 3000)
 	for c := 0; c < nrand; c++ {
@@ -443,7 +497,7 @@ func run(args []string) error {
 			// forge some
 			for j := range m {
 				if r.Chance(12) {
-					m[j].kind = kind(1 + r.Intn(3))
+					m[j].kind = kind(1 + r.Intn(4))
 					hist.Add("forged:" + kindName[m[j].kind])
 				}
 			}
@@ -519,7 +573,7 @@ func run(args []string) error {
 	o.Def("cases_loop", "Z * Z * Z * Z * list Z", loops)
 
 	o.Side["cases"] = map[string]interface{}{"sync": cj, "loop": lj}
-	o.Side["rule"] = "a case is a delivery schedule (list of GiveBlocks messages, each a list of blocks: genuine / bad signature / swapped body / re-signed PrevHash variant) run on a fresh real follower visor through daemon.GiveBlocksMessage.process, followed by a sorted re-delivery; every schedule is distinct by construction; loop cases run the request/response cycle against the publisher's GetBlocksMessage.process"
+	o.Side["rule"] = "a case is a delivery schedule (list of GiveBlocks messages, each a list of blocks: genuine / bad signature / swapped body / re-signed PrevHash variant / genuine header with a different VALID body) run on a fresh real follower visor through daemon.GiveBlocksMessage.process, followed by a sorted re-delivery; every schedule is distinct by construction; loop cases run the request/response cycle against the publisher's GetBlocksMessage.process"
 	o.Side["distribution"] = hist.Sorted()
 	o.Side["f1_accepts_prevhash_variant"] = e.f1
 	ns := len(cj)
